@@ -15,6 +15,23 @@ Supported grammar of the function (anything else raises Unsupported, nothing is 
            | packet.fcf_framever | <local>
   opt    ::= packet.dest_panid | packet.src_panid            (value or None)
 
+Before translation the function is NORMALISED on the AST (class Inliner; nothing is generated from
+un-normalised text and every step is fail-closed):
+  * a call `self._h(a..)`, `cls._h(a..)`, `MACManager._h(a..)` (method, staticmethod, classmethod of the
+    same class) or `_h(a..)` (function of the same module) is replaced by the helper's result expression
+    with the parameters substituted, transitively (recursion and depth > 8 are refused). The helper's
+    body must be: docstring*, `x = <expr>` bindings, and an if/elif/else or early-return cascade whose
+    every path ends in `return <expr>`; it becomes a conditional expression (`a if t else b`). All
+    expressions of the grammar are pure, so substitution preserves meaning.
+  * a name bound exactly once at module level, or `self.X`/`cls.X`/`MACManager.X` bound exactly once in
+    the class body, to an int/bool literal or MACAddressMode.<NAME>, or imported from the constants
+    module where it is bound once to such a value, is replaced by that value (unless shadowed).
+Additional grammar accepted after normalisation: conditional expressions in <bool>/<num>,
+`<num> not in (...)`, and local bindings `<local> = <bool>|<num>` in the main function. Merged or split
+`and`/`or` conditions, nested vs flat `if`s and guard clauses (`if ..: ...; return packet`) are all in
+the statement grammar above; they change the generated TEXT, in which case the check re-proves every
+theorem against the regenerated definition (see harness/props/C20.py translator_step).
+
 Meaning in Coq: the function becomes
   choose_panid (framever dam sam : N) (has_dp has_sp : bool) (dp sp : option N) : cres
 returning `COk bit` (the value finally stored in packet.fcf_panidcompress, initially c0 = 0 —
@@ -23,6 +40,7 @@ that the module whad.dot15d4.stack.mac does not bind is `CRaise NameError` at th
 Python would evaluate it; a key missing from the table is `CRaise KeyError`.
 """
 import ast
+import copy
 import hashlib
 import os
 
@@ -116,6 +134,262 @@ def module_bindings(tree):
     return b, star
 
 
+MAX_INLINE_DEPTH = 8
+
+
+def _is_doc(st):
+    return isinstance(st, ast.Expr) and isinstance(st.value, ast.Constant) and isinstance(st.value.value, str)
+
+
+def _const_value(v):
+    """int/bool literal or MACAddressMode.<NAME> (kept as AST), else None."""
+    if isinstance(v, ast.Constant) and isinstance(v.value, (int, bool)) and not isinstance(v.value, float):
+        if isinstance(v.value, bool) or v.value >= 0:
+            return v
+    if (isinstance(v, ast.Attribute) and isinstance(v.value, ast.Name) and v.value.id == "MACAddressMode"):
+        return v
+    if isinstance(v, ast.Tuple) and v.elts and all(_const_value(x) is not None and not isinstance(x, ast.Tuple)
+                                                    for x in v.elts):
+        return v        # tuple of such values (right operand of `in` / `not in`)
+    return None
+
+
+def _once_bound_consts(body):
+    """name -> value AST for names assigned exactly once in this statement list to a constant value
+    (and not otherwise rebound by def/class/import/augmented assignment/for/with at this level)."""
+    count, val = {}, {}
+    for st in body:
+        names = []
+        if isinstance(st, ast.Assign):
+            for t in st.targets:
+                for n in ast.walk(t):
+                    if isinstance(n, ast.Name):
+                        names.append(n.id)
+            if len(st.targets) == 1 and isinstance(st.targets[0], ast.Name):
+                val[st.targets[0].id] = _const_value(st.value)
+        elif isinstance(st, (ast.AugAssign, ast.AnnAssign)):
+            if isinstance(st.target, ast.Name):
+                names.append(st.target.id)
+                val[st.target.id] = None
+        elif isinstance(st, (ast.FunctionDef, ast.AsyncFunctionDef, ast.ClassDef)):
+            names.append(st.name)
+        elif isinstance(st, (ast.Import, ast.ImportFrom)):
+            for a in st.names:
+                names.append((a.asname or a.name).split(".")[0])
+        elif not _is_doc(st) and not isinstance(st, (ast.Pass,)):
+            for n in ast.walk(st):      # for / with / try / if at this level: anything they store is "not once"
+                if isinstance(n, ast.Name) and isinstance(n.ctx, (ast.Store, ast.Del)):
+                    names += [n.id, n.id]
+        for n in names:
+            count[n] = count.get(n, 0) + 1
+    return {n: v for n, v in val.items() if v is not None and count.get(n) == 1}
+
+
+def _rebinds_globals(tree):
+    """Names declared `global` anywhere in the module (they may be rebound at run time)."""
+    out = set()
+    for n in ast.walk(tree):
+        if isinstance(n, ast.Global):
+            out.update(n.names)
+    return out
+
+
+class _Subst(ast.NodeTransformer):
+    def __init__(self, env):
+        self.env = env
+
+    def visit_Name(self, node):
+        if isinstance(node.ctx, ast.Load) and node.id in self.env:
+            return copy.deepcopy(self.env[node.id])
+        return node
+
+
+class Inliner:
+    """AST -> AST normalisation of one function: helper calls inlined, constants resolved."""
+
+    def __init__(self, mac_tree, const_tree, cls_node, binds, star):
+        self.cls = cls_node
+        self.cls_funcs = {st.name: st for st in cls_node.body if isinstance(st, ast.FunctionDef)}
+        self.mod_funcs = {st.name: st for st in mac_tree.body if isinstance(st, ast.FunctionDef)}
+        rebound = _rebinds_globals(mac_tree)
+        self.mod_consts = {k: v for k, v in _once_bound_consts(mac_tree.body).items() if k not in rebound}
+        self.cls_consts = _once_bound_consts(cls_node.body)
+        cm = _once_bound_consts(const_tree.body)
+        crebound = _rebinds_globals(const_tree)
+        for name, (mod, orig) in binds.items():
+            if mod == CONST_MOD and orig in cm and orig not in crebound and name not in self.mod_consts:
+                if sum(1 for st in mac_tree.body for a in getattr(st, "names", [])
+                       if isinstance(st, (ast.Import, ast.ImportFrom)) and (a.asname or a.name) == name) == 1:
+                    self.mod_consts[name] = cm[orig]
+        self.used = []          # helpers inlined (FunctionDef nodes), for the source ties
+        self.consts_used = set()
+
+    # -- helper bodies -----------------------------------------------------
+    def body_expr(self, stmts, env, where):
+        """statement list of a helper -> its result expression (params/locals substituted)."""
+        stmts = [st for st in stmts if not _is_doc(st) and not isinstance(st, ast.Pass)]
+        if not stmts:
+            raise Unsupported("helper %s: a path ends without `return <expr>`" % where)
+        st, rest = stmts[0], stmts[1:]
+        if isinstance(st, ast.Return):
+            if st.value is None:
+                raise Unsupported("helper %s: bare return at line %d" % (where, st.lineno))
+            return _Subst(env).visit(copy.deepcopy(st.value))
+        if isinstance(st, ast.Assign) and len(st.targets) == 1 and isinstance(st.targets[0], ast.Name):
+            env2 = dict(env)
+            env2[st.targets[0].id] = _Subst(env).visit(copy.deepcopy(st.value))
+            return self.body_expr(rest, env2, where)
+        if isinstance(st, ast.If):
+            test = _Subst(env).visit(copy.deepcopy(st.test))
+            a = self.body_expr(list(st.body) + rest, env, where)
+            b = self.body_expr(list(st.orelse) + rest, env, where)
+            return ast.copy_location(ast.IfExp(test=test, body=a, orelse=b), st)
+        raise Unsupported("helper %s: statement at line %d (%s) is outside the grammar"
+                          % (where, st.lineno, type(st).__name__))
+
+    def resolve_call(self, call):
+        """-> (FunctionDef, implicit_first_arg or None, label) or None when the call is not a helper call."""
+        f = call.func
+        if isinstance(f, ast.Name):
+            if f.id in self.mod_funcs:
+                return self.mod_funcs[f.id], None, f.id
+            return None
+        if isinstance(f, ast.Attribute) and isinstance(f.value, ast.Name) and f.value.id in ("self", "cls", self.cls.name):
+            fn = self.cls_funcs.get(f.attr)
+            if fn is None:
+                raise Unsupported("call of %s.%s at line %d: not a method defined in class %s"
+                                  % (f.value.id, f.attr, call.lineno, self.cls.name))
+            decos = []
+            for d in fn.decorator_list:
+                if isinstance(d, ast.Name) and d.id in ("staticmethod", "classmethod"):
+                    decos.append(d.id)
+                else:
+                    raise Unsupported("helper %s has a decorator outside the grammar (line %d)" % (fn.name, d.lineno))
+            label = "%s.%s" % (self.cls.name, fn.name)
+            if "staticmethod" in decos:
+                return fn, None, label
+            if "classmethod" in decos:
+                return fn, ast.Name(id="cls", ctx=ast.Load()), label
+            if f.value.id == "self":
+                return fn, ast.Name(id="self", ctx=ast.Load()), label
+            if f.value.id == self.cls.name:
+                return fn, None, label          # plain function taken from the class: first argument explicit
+            raise Unsupported("instance method %s called through cls at line %d" % (fn.name, call.lineno))
+        return None
+
+    def inline_call(self, call, stack):
+        r = self.resolve_call(call)
+        if r is None:
+            return None
+        fn, first, label = r
+        if label in stack:
+            raise Unsupported("recursive helper %s (line %d)" % (label, call.lineno))
+        if len(stack) >= MAX_INLINE_DEPTH:
+            raise Unsupported("helper nesting deeper than %d at line %d" % (MAX_INLINE_DEPTH, call.lineno))
+        a = fn.args
+        if a.vararg or a.kwarg or a.kwonlyargs or a.posonlyargs:
+            raise Unsupported("helper %s: parameter kinds outside the grammar" % label)
+        if any(isinstance(x, ast.Starred) for x in call.args) or any(k.arg is None for k in call.keywords):
+            raise Unsupported("call of %s at line %d uses * or **" % (label, call.lineno))
+        params = [p.arg for p in a.args]
+        actual = ([first] if first is not None else []) + list(call.args)
+        if len(actual) > len(params):
+            raise Unsupported("call of %s at line %d: too many arguments" % (label, call.lineno))
+        env = dict(zip(params, actual))
+        for k in call.keywords:
+            if k.arg not in params or k.arg in env:
+                raise Unsupported("call of %s at line %d: bad keyword %s" % (label, call.lineno, k.arg))
+            env[k.arg] = k.value
+        defaults = dict(zip(params[len(params) - len(a.defaults):], a.defaults))
+        for p in params:
+            if p not in env:
+                if p in defaults and _const_value(defaults[p]) is not None:
+                    env[p] = defaults[p]
+                else:
+                    raise Unsupported("call of %s at line %d: parameter %s not supplied" % (label, call.lineno, p))
+        for n in ast.walk(fn):
+            if isinstance(n, (ast.Global, ast.Nonlocal, ast.Lambda, ast.FunctionDef, ast.Yield, ast.YieldFrom,
+                              ast.Await, ast.NamedExpr)) and n is not fn:
+                raise Unsupported("helper %s: %s at line %d is outside the grammar"
+                                  % (label, type(n).__name__, getattr(n, "lineno", fn.lineno)))
+        # arguments are normalised in the caller's context first, the helper body in its own
+        env = {k: self.expr(v, stack, shadow=None) if not (isinstance(v, ast.Name) and v.id in ("self", "cls")) else v
+               for k, v in env.items()}
+        e = self.body_expr(list(fn.body), env, label)
+        if fn not in self.used:
+            self.used.append(fn)
+        # the substituted body may itself contain helper calls / constants of the helper's scope
+        local = {p for p in params} | {t.id for st in ast.walk(fn) if isinstance(st, ast.Assign)
+                                      for t in st.targets if isinstance(t, ast.Name)}
+        return self.expr(e, stack + [label], shadow=local - set(env))
+
+    # -- expressions ---------------------------------------------------------
+    def expr(self, e, stack, shadow):
+        inl = self
+
+        class T(ast.NodeTransformer):
+            def visit_Call(self, node):
+                r = inl.inline_call(node, stack)
+                if r is not None:
+                    return ast.copy_location(r, node)
+                return self.generic_visit(node)
+
+            def visit_Name(self, node):
+                if (isinstance(node.ctx, ast.Load) and node.id in inl.mod_consts
+                        and not (shadow and node.id in shadow)):
+                    inl.consts_used.add(node.id)
+                    return ast.copy_location(copy.deepcopy(inl.mod_consts[node.id]), node)
+                return node
+
+            def visit_Attribute(self, node):
+                if (isinstance(node.ctx, ast.Load) and isinstance(node.value, ast.Name)
+                        and node.value.id in ("self", "cls", inl.cls.name) and node.attr in inl.cls_consts
+                        and not (node.value.id in ("self", "cls") and node.attr in inl.instance_attrs())):
+                    inl.consts_used.add("%s.%s" % (inl.cls.name, node.attr))
+                    return ast.copy_location(copy.deepcopy(inl.cls_consts[node.attr]), node)
+                return self.generic_visit(node)
+
+        return T().visit(copy.deepcopy(e))
+
+    def instance_attrs(self):
+        """attribute names assigned through self./cls. anywhere in the class (they shadow class constants)."""
+        if not hasattr(self, "_ia"):
+            self._ia = set()
+            for n in ast.walk(self.cls):
+                if (isinstance(n, ast.Attribute) and isinstance(n.ctx, (ast.Store, ast.Del))
+                        and isinstance(n.value, ast.Name) and n.value.id in ("self", "cls", self.cls.name)):
+                    self._ia.add(n.attr)
+        return self._ia
+
+    # -- the function under translation -----------------------------------------
+    def function(self, fn):
+        shadow = {a.arg for a in fn.args.args} | {t.id for st in ast.walk(fn) if isinstance(st, ast.Assign)
+                                                  for t in st.targets if isinstance(t, ast.Name)}
+        inl = self
+
+        class S(ast.NodeTransformer):
+            def generic_stmt_exprs(self, node):
+                return node
+
+            def visit_If(self, node):
+                node.test = inl.expr(node.test, [], shadow)
+                node.body = [self.visit(x) for x in node.body]
+                node.orelse = [self.visit(x) for x in node.orelse]
+                return node
+
+            def visit_Assign(self, node):
+                node.value = inl.expr(node.value, [], shadow)
+                return node
+
+            def visit_Return(self, node):
+                return node
+
+        out = copy.deepcopy(fn)
+        out.body = [S().visit(st) for st in out.body]
+        ast.fix_missing_locations(out)
+        return out
+
+
 class FnTranslator:
     def __init__(self, fn, enum, table_bound):
         self.fn, self.enum, self.table_bound = fn, enum, table_bound
@@ -123,6 +397,7 @@ class FnTranslator:
         if args != ["self", "packet", "destination_address_mode", "source_address_mode"]:
             raise Unsupported("unexpected signature %r" % args)
         self.locals = set()
+        self.bool_locals = set()
 
     # ---- expressions ----
     def num(self, e):
@@ -138,8 +413,12 @@ class FnTranslator:
                 return "dam"
             if e.id == "source_address_mode":
                 return "sam"
-            if e.id in self.locals:
+            if e.id in self.locals and e.id not in self.bool_locals:
                 return "v_" + e.id
+        if isinstance(e, ast.IfExp):
+            a, b = self.num(e.body), self.num(e.orelse)
+            if a is not None and b is not None:
+                return "(if %s then %s else %s)" % (self.boolean(e.test), a, b)
         return None
 
     def opt(self, e):
@@ -164,6 +443,10 @@ class FnTranslator:
             return "(negb %s)" % self.boolean(e.operand)
         if isinstance(e, ast.Constant) and isinstance(e.value, bool):
             return "true" if e.value else "false"
+        if isinstance(e, ast.IfExp):
+            return "(if %s then %s else %s)" % (self.boolean(e.test), self.boolean(e.body), self.boolean(e.orelse))
+        if isinstance(e, ast.Name) and e.id in self.bool_locals:
+            return "v_" + e.id
         if isinstance(e, ast.Call):
             if (isinstance(e.func, ast.Name) and e.func.id == "hasattr" and len(e.args) == 2 and not e.keywords
                     and isinstance(e.args[0], ast.Name) and e.args[0].id == "packet"
@@ -182,6 +465,9 @@ class FnTranslator:
                 else:
                     raise Unsupported("comparison operands at line %d" % e.lineno)
                 return t if isinstance(op, ast.Eq) else "(negb %s)" % t
+            if isinstance(op, ast.NotIn) and isinstance(r, ast.Tuple):
+                pos = ast.copy_location(ast.Compare(left=l, ops=[ast.In()], comparators=[r]), e)
+                return "(negb %s)" % self.boolean(pos)
             if isinstance(op, ast.In) and isinstance(r, ast.Tuple):
                 ln = self.num(l)
                 items = [self.num(x) for x in r.elts]
@@ -207,11 +493,11 @@ class FnTranslator:
                 return pad + "COk c"
             raise Unsupported("return value at line %d" % s.lineno)
         if isinstance(s, ast.If):
-            saved = set(self.locals)
+            saved, saved_b = set(self.locals), set(self.bool_locals)
             a = self.block(list(s.body) + rest, ind + 1)
-            self.locals = set(saved)
+            self.locals, self.bool_locals = set(saved), set(saved_b)
             b = self.block(list(s.orelse) + rest, ind + 1)
-            self.locals = saved
+            self.locals, self.bool_locals = saved, saved_b
             return "%sif %s then\n%s\n%selse\n%s" % (pad, self.boolean(s.test), a, pad, b)
         if isinstance(s, ast.Assign) and len(s.targets) == 1:
             t, v = s.targets[0], s.value
@@ -238,6 +524,17 @@ class FnTranslator:
                 body = self.block(rest, ind + 1)
                 return ("%smatch panid_lookup panid_table (%s, %s, %s, %s) with\n%s| None => CRaise KeyError\n"
                         "%s| Some v_%s =>\n%s\n%send" % (pad, k[0], k[1], k[2], k[3], pad, pad, t.id, body, pad))
+            if isinstance(t, ast.Name) and t.id not in ("packet", "self", "destination_address_mode", "source_address_mode"):
+                # local binding of a pure expression of the grammar
+                n = self.num(v)
+                if n is not None:
+                    self.locals.add(t.id)
+                    self.bool_locals.discard(t.id)
+                    return "%slet v_%s := %s in\n%s" % (pad, t.id, n, self.block(rest, ind))
+                bexp = self.boolean(v)
+                self.locals.add(t.id)
+                self.bool_locals.add(t.id)
+                return "%slet v_%s := %s in\n%s" % (pad, t.id, bexp, self.block(rest, ind))
         raise Unsupported("statement at line %d: %s" % (s.lineno, type(s).__name__))
 
 
@@ -259,16 +556,21 @@ def translate(repo):
     if "MACAddressMode" not in binds or binds["MACAddressMode"] != (CONST_MOD, "MACAddressMode"):
         if CONST_MOD not in star:
             raise Unsupported("MACAddressMode is not imported from the constants module")
-    fn = None
+    fn, cls_node = None, None
     for n in mac_tree.body:
         if isinstance(n, ast.ClassDef) and n.name == "MACManager":
+            cls_node = n
             for st in n.body:
                 if isinstance(st, ast.FunctionDef) and st.name == FUNC:
                     fn = st
     if fn is None:
         raise Unsupported("MACManager.%s not found" % FUNC)
-    tr = FnTranslator(fn, enum, table_bound)
-    body = tr.block(list(fn.body), 1)
+    if fn.decorator_list:
+        raise Unsupported("MACManager.%s is decorated" % FUNC)
+    inliner = Inliner(mac_tree, const_tree, cls_node, binds, star)
+    norm = inliner.function(fn)
+    tr = FnTranslator(norm, enum, table_bound)
+    body = tr.block(list(norm.body), 1)
     ties = [
         {"item": "MACAddressMode", "file": CONST_REL, "lines": [enum_node.lineno, enum_node.end_lineno],
          "sha256": _sha(_seg(const_lines, enum_node))},
@@ -277,6 +579,11 @@ def translate(repo):
         {"item": "MACManager." + FUNC, "file": MAC_REL, "lines": [fn.lineno, fn.end_lineno],
          "sha256": _sha(_seg(mac_lines, fn))},
     ]
+    for h in inliner.used:
+        first = min([h.lineno] + [d.lineno for d in h.decorator_list])
+        seg = "".join(mac_lines[first - 1:h.end_lineno])
+        ties.append({"item": "inlined helper " + h.name, "file": MAC_REL, "lines": [first, h.end_lineno],
+                     "sha256": _sha(seg)})
     out = []
     out.append("(** GENERATED by harness/translators/C20_panid.py -- do not edit.")
     for t in ties:
@@ -318,7 +625,8 @@ def translate(repo):
     out.append("")
     text = "\n".join(out)
     return text, {"ties": ties, "table_bound": table_bound, "table": sorted([list(k) + [v] for k, v in table.items()]),
-                  "enum": enum}
+                  "enum": enum, "inlined_helpers": [h.name for h in inliner.used],
+                  "constants_resolved": sorted(inliner.consts_used)}
 
 
 def strip_header(text):
